@@ -26,9 +26,9 @@ NOT_DECIDED = ("equality of the remaining occurrence sequence after a write/read
 TRUSTED = ["clang 14 parser/CFG builder", "echse-facts extractor", "gperf (tables regenerated from the .erf files)", "python rule engines in /verif/sa"]
 LEVEL_TEXT = ("Static verdict on necessary structural clauses of C05: the writer's and the reader's tables agree (keywords, field pairing, "
               "container typing, sentinel encodings over the whole field domain, sub-stream traversal of every stream class). It decides table "
-              "agreement, not equality of occurrence sequences after a round trip.")
+              "agreement, not equality of occurrence sequences after a round trip. Also: COUNT/INTERVAL values the serialiser writes (incl. COUNT=0 of an exhausted rule) are read back as written or as `no occurrences`; calendar-level fields are overridable at event level; the off-by-one fields are unsigned.")
 LEVEL_NOTE = "Trusted: clang 14 front end/CFG, extractor, gperf, rule engines."
-TECHNIQUE = "static analysis: writer/reader table agreement over extracted string literals and gperf word lists, per-keyword path-sensitive field pairing, typedef nominal typing, whole-domain encoding evaluation, sibling agreement of class methods"
+TECHNIQUE = "static analysis: writer/reader table agreement over extracted string literals and gperf word lists, per-keyword path-sensitive field pairing, typedef nominal typing, whole-domain encoding evaluation, sibling agreement of class methods; value-fixed walks of the scalar RRULE reader"
 
 WRITERS = {
     "evical.c": ("send_task", "send_ev", "send_rrul", "send_scale", "send_cd", "send_ical_hdr", "send_ical_ftr", "send_evrrul",
